@@ -993,6 +993,8 @@ theorem applyOp_inv {c : Sys} (op : COp) (h : Inv c.s) : Inv (applyOp c op).s :=
   | setReady b => exact liftT_inv (setReady_extT _ _) h
   | setFlush b => exact liftT_inv (setFlush_extT _ _) h
   | fault k => exact h.of_extT (armFault_extT _ _)
+  | faultSkip n => exact h.of_extT ⟨rfl, rfl, rfl⟩
+  | selfWake b => exact h.of_extT ⟨rfl, rfl, rfl⟩
   | take n => exact take_inv _ _ ⟨rfl, rfl, rfl⟩ h
   | advance n => exact h.of_frames (onAdvance_frameA _ _) (onAdvance_frameD _ _)
 
